@@ -980,6 +980,56 @@ fn consumer_ec_and_data(
     }
     let mut rx = cw.clone();
     let res = guard(|| decode_error(&mut rx, rs.size));
+    // the same received word once more in a buffer that does not start on an 8-byte boundary (a sub-slice of a larger
+    // buffer): the outcome must not depend on where the codewords lie
+    if cw.len() >= 8 {
+        let mut buf = vec![0u8; cw.len() + 16];
+        let base = buf.as_ptr() as usize % 8;
+        let want = 1 + (cw.len() + cw[0] as usize) % 7; // 1..=7
+        let off = (want + 8 - base) % 8 + if (want + 8 - base) % 8 == 0 { 8 } else { 0 };
+        buf[off..off + cw.len()].copy_from_slice(&cw);
+        let size = rs.size;
+        let n = cw.len();
+        let res2 = guard(|| {
+            let r = decode_error(&mut buf[off..off + n], size);
+            (r, buf[off..off + n].to_vec())
+        });
+        match (&res, res2) {
+            (_, Err(p)) => {
+                if res.is_ok() {
+                    o.violations.push(Violation {
+                        prop: "C05",
+                        class: format!("panic:decode_error(unaligned buffer)@{}", p.loc),
+                        detail: p.msg,
+                    });
+                }
+            }
+            (Ok(r1), Ok((r2, rx2))) => {
+                if r1.is_ok() != r2.is_ok() || (r1.is_ok() && rx2 != rx) {
+                    o.other_events.push("decode_error_depends_on_buffer_alignment".into());
+                    if measured_within && (r2.is_err() || rx2 != sent) {
+                        o.violations.push(Violation {
+                            prop: "C03",
+                            class: "staged_wrong_word(unaligned buffer)".into(),
+                            detail: "the received word, within the radius, is repaired in an 8-byte aligned buffer but not in an unaligned one".into(),
+                        });
+                    }
+                    if r2.is_ok() && rx2.len() == rs.n_total() {
+                        if let Ok(ec) = guard(|| encode_error(&rx2[..rs.n_data], rs.size)) {
+                            if ec[..] != rx2[rs.n_data..] {
+                                o.violations.push(Violation {
+                                    prop: "C09",
+                                    class: "ok_non_codeword(unaligned buffer)".into(),
+                                    detail: format!("decode_error returned Ok for {} in an unaligned buffer and left a non-codeword", rs.name),
+                                });
+                            }
+                        }
+                    }
+                }
+            }
+            _ => {}
+        }
+    }
     match res {
         Err(p) => {
             o.ec = EcClass::Panic;
